@@ -71,6 +71,21 @@ func messageEntryPoints(t gen.TB, w *gen.World, m any, rp map[string]any, ccel, 
 	full := fieldsToOptions(&gen.PolicyFields{MinQeSvn: 1, MinPceSvn: 1, QeVendorID: make([]byte, 16), MinTeeTcbSvn: make([]byte, 16), MrSeam: make([]byte, 48), TdAttributes: make([]byte, 8), Xfam: make([]byte, 8),
 		MrTd: make([]byte, 48), MrConfigID: make([]byte, 48), MrOwner: make([]byte, 48), MrOwnerConfig: make([]byte, 48), ReportData: make([]byte, 64), Rtmrs: [][]byte{make([]byte, 48), make([]byte, 48), make([]byte, 48), make([]byte, 48)}, AnyMrTd: [][]byte{make([]byte, 48)}})
 	c10Call(t, "validate.TdxQuote(full policy)", rp, func() error { return validate.TdxQuote(m, full) })
+	// policies that pin a single register / a single allow-list entry (the other entries empty)
+	for k := 0; k < 4; k++ {
+		rt := make([][]byte, 4)
+		rt[k] = make([]byte, 48)
+		sparse := &validate.Options{TdQuoteBodyOptions: validate.TdQuoteBodyOptions{Rtmrs: rt}}
+		c10Call(t, fmt.Sprintf("validate.TdxQuote(only RTMR%d pinned)", k), rp, func() error { return validate.TdxQuote(m, sparse) })
+	}
+	c10Call(t, "rtmr.GetRtmrsFromTdQuote(after CheckQuoteV4)", rp, func() error {
+		// documented precondition: the caller has checked the quote
+		if q, ok := m.(*pb.QuoteV4); !ok || abi.CheckQuoteV4(q) != nil {
+			return nil
+		}
+		_, err := rtmr.GetRtmrsFromTdQuote(m)
+		return err
+	})
 	if ccel != nil {
 		opts := &rtmr.ParseTdxCcelOpts{Validation: &validate.Options{}, Verification: w.Options(gen.LvlBase, w.NewGetter(), nil), ExtractOpt: extract.Opts{Loader: extract.GRUB}}
 		c10Call(t, "rtmr.ParseCcelWithTdQuote", rp, func() error { _, err := rtmr.ParseCcelWithTdQuote(ccel, table, m, opts); return err })
@@ -146,6 +161,18 @@ func structuralMutations(root proto.Message) []struct {
 						l.Truncate(0)
 						for j := 0; j < cnt; j++ {
 							l.Append(protoreflect.ValueOfBytes(make([]byte, 48)))
+						}
+					}})
+				}
+				// the same number of bytes in another grouping: fewer, more or unequal entries whose lengths add up to the
+				// four 48-byte entries (a check on the joined bytes and a use entry by entry must not disagree into a crash)
+				for _, sizes := range [][]int{{64, 64, 64}, {96, 96}, {192}, {38, 38, 38, 38, 40}, {47, 49, 48, 48}, {0, 96, 48, 48}, {48, 48, 96}, {192, 0, 0, 0}} {
+					sizes := sizes
+					out = append(out, mut{fmt.Sprintf("%s:regrouped=%v", n, sizes), func(r proto.Message) {
+						l := resolve(p, r).Mutable(fd).List()
+						l.Truncate(0)
+						for _, sz := range sizes {
+							l.Append(protoreflect.ValueOfBytes(make([]byte, sz)))
 						}
 					}})
 				}
@@ -499,6 +526,58 @@ func TestC10(t *testing.T) {
 			}
 		}
 		gen.Exhaustive("size / magnitude variants of every JSON node of correctly re-signed TCB Info and QE Identity documents", true)
+	})
+
+	// (2c) the error paths of the revocation checks: the certificate a CRL revokes (PCK leaf, issuing CA, TCB / QE signer)
+	// has a serial number of 1 .. 64 octets (RFC 5280 asks for at most 20, crypto/x509 parses and issues longer ones),
+	// with and without a leading 0x80 bit; revoked or merely listed next to a revoked neighbour.
+	gen.Direct(t, "revocation-paths-with-serials-of-any-length", func(t *testing.T) {
+		i := 0
+		for _, n := range []int{1, 8, 16, 19, 20, 21, 22, 32, 33, 64} {
+			for _, who := range []string{"leaf", "intermediate", "tcb-signer", "qe-signer", "none"} {
+				i++
+				if !gen.ShardOwns(i) {
+					continue
+				}
+				s := gen.NewStream(gen.Seed()+uint64(i), "c10serial")
+				serial := s.Bytes(n)
+				serial[0] = 0x7f // stays positive, takes exactly n octets
+				spec := gen.PKISpec{Seed: fmt.Sprintf("c10-serial-%d-%s", n, who)}
+				switch who {
+				case "intermediate":
+					spec.IntSerial = serial
+				case "tcb-signer":
+					spec.TcbSerial = serial
+				case "qe-signer":
+					spec.QeSerial = serial
+				}
+				w := gen.NewWorld(gen.NewPKI(spec), s)
+				if who == "leaf" || who == "none" {
+					w.LeafSpec.Serial = serial
+				}
+				w.SignQuote()
+				switch who {
+				case "leaf":
+					w.PckCrl.Revoked = [][]byte{w.Leaf.X.SerialNumber.Bytes()}
+				case "intermediate":
+					w.RootCrl.Revoked = [][]byte{w.PKI.Int.X.SerialNumber.Bytes()}
+				case "tcb-signer":
+					w.RootCrl.Revoked = [][]byte{w.PKI.TcbSig.X.SerialNumber.Bytes()}
+				case "qe-signer":
+					w.RootCrl.Revoked = [][]byte{w.PKI.QeSig.X.SerialNumber.Bytes()}
+				default:
+					w.PckCrl.Revoked = [][]byte{append(append([]byte{}, serial[:n-1]...), serial[n-1]^1)} // a neighbour of the leaf's serial
+				}
+				w.BuildCollateral()
+				rp := w.CaseFile(gen.LvlCRL, nil, nil, nil, "nopanic")
+				o := w.Options(gen.LvlCRL, w.NewGetter(), nil)
+				c10Call(t, fmt.Sprintf("verify.RawTdxQuote+revoked-%s-serial-of-%d-octets", who, n), rp, func() error { return verify.RawTdxQuote(w.Raw, o) })
+				thenSupported(t, w, o, "revoked-"+who, rp)
+				gen.NonTrivial("long-serial", n, who)
+				gen.Class("revocation-path:" + who)
+			}
+		}
+		gen.Exhaustive("10 serial-number lengths x {leaf, issuing CA, TCB signer, QE signer revoked; neighbour serial listed}", true)
 	})
 
 	// (2b) the dates of correctly signed documents: every pairing of issueDate / nextUpdate spellings, including equal
